@@ -1181,7 +1181,7 @@ impl<'cmd> Parser<'cmd> {
                 for (i, raw_val) in raw_vals.into_iter().enumerate() {
                     if !raw_val.contains(val_delim)
                         || (self.cmd.is_dont_delimit_trailing_values_set()
-                            && trailing_idx == Some(i))
+                            && matches!(trailing_idx, Some(t) if t <= i))
                     {
                         split_raw_vals.push(raw_val);
                     } else {
